@@ -19,7 +19,15 @@ out = ["# Independently written breaking changes", "",
 for r in rows:
     out.append("| %s | %s | %s | %s | %s |" % r)
 missed = [r[0] for r in rows if "missed" in r[4] and "caught" not in r[4]]
+notcounted = {}
+for d in sorted(glob.glob(os.path.join(VERIF, "seeded", "C*-*"))):
+    a = json.load(open(os.path.join(d, "meta.json"))).get("assessment", "")
+    if a.startswith("not counted"): notcounted[os.path.basename(d)] = a
 out += ["", "Changes caught by the check of the property they were written against, or (where noted) by the check of the property",
         "the breakage really belongs to: %d of %d.  %s" % (len(rows) - len(missed), len(rows), ("Not caught: " + ", ".join(missed)) if missed else "None is missed."), ""]
+if notcounted:
+    out += ["Of the changes not caught, these are kept but deliberately not asserted by any check (they rely on behaviour that neither", "the documentation nor a listed property defines):", ""]
+    for k, v in notcounted.items(): out.append("* %s - %s" % (k, v))
+    out.append("")
 open(os.path.join(VERIF, "seeded", "README.md"), "w").write("\n".join(out))
 print("\n".join(out[-4:]))
